@@ -72,7 +72,7 @@ def check(prop: str, tier: str, repo: str | None, write: bool = True) -> int:
         # self-test of the rules (variants of the live tree held in memory)
         extra = {}
         selftest_error = None
-        if not new_violations:
+        if not new_violations and not rep.errors and not os.environ.get("SA_NO_SELFTEST"):
             from sa import selftest
 
             try:
@@ -95,8 +95,12 @@ def check(prop: str, tier: str, repo: str | None, write: bool = True) -> int:
         n_ok = sum(1 for o in rep.obligations if o.ok)
         print(f"{prop} [{tier}] obligations={len(rep.obligations)} discharged={n_ok} known={len(known_lines)} "
               f"violations={len(new_violations)} functions={stats['functions']} wall={time.time() - t0:.2f}s")
+        for e in rep.errors:
+            print(f"ANALYSIS-ERROR property={prop} {e}" + (" (reported together with the violation(s) above)" if new_violations else ""))
         if new_violations:
             return 1
+        if rep.errors:
+            return 2
         if selftest_error is not None:
             print(f"ANALYSIS-ERROR property={prop} self-test: {selftest_error}")
             return 2
